@@ -277,6 +277,23 @@ def check_apply(o):
     d = same(s0, state(s))
     if d:
         bad.append(("apply on the raw arrays modified the input: " + d, {}, None))
+    # ... also for the smallest coordinate arrays: one point is a (1, n_dims) array and comes back as one row
+    P1 = np.asarray(s.points)
+    for i in sorted({0, len(P1) - 1}):
+        for b in (None, 1, 5):
+            try:
+                g1 = np.asarray(t.apply(P1[i:i + 1].copy(), batch_size=b))
+            except Exception as e:
+                bad.append(("apply on a one-point coordinate array raised %s" % type(e).__name__, {"row": i, "batch_size": b, "msg": str(e)[:120]}, None))
+                break
+            w1 = np.asarray(r.points)[i:i + 1]
+            if g1.shape != w1.shape or not np.allclose(g1, w1, atol=1e-9, rtol=0):
+                bad.append(("apply on a one-point (1, n_dims) coordinate array does not give that point's row of the result",
+                            {"row": i, "batch_size": b, "got_shape": list(g1.shape), "want_shape": list(w1.shape)}, None))
+                break
+        else:
+            continue
+        break
     # the same numbers whatever the batch size, and whatever number type the caller's coordinates come in
     if c["t"]["kind"] not in ("pwa",):
         want_pts = np.asarray(r.points, dtype=float)
